@@ -212,8 +212,8 @@ def _protocol_pass(seq: T.List[dict], profile: str) -> None:
                 t.update(protocol='rust', rust=rust_items(prng, 'fail', prng.random() < 0.6), rc=[101])
 
 
-def gen_project(rng: random.Random, profile: str, idx: int = 0) -> dict:
-    """One project. tests are laid out in intended start order."""
+def gen_project(rng: random.Random, profile: str, idx: int = 0, count: T.Optional[int] = None) -> dict:
+    """One project. tests are laid out in intended start order.  `count` (profile 'slices' only): number of tests."""
     seq: T.List[dict] = []
     n = 0
 
@@ -294,6 +294,14 @@ def gen_project(rng: random.Random, profile: str, idx: int = 0) -> dict:
         S(0, 40)
     elif profile == 'protocols':
         _protocols_project(rng, add)
+    elif profile == 'slices':
+        # many short tests: the set that --slice i/n is swept over for n up to (and beyond) the number of tests
+        for _ in range(count or rng.randint(12, 40)):
+            r = rng.random()
+            if r < 0.7:
+                (P if rng.random() < 0.75 else S)(0, 0)
+            else:
+                (P if rng.random() < 0.7 else S)(1, 25)
     elif profile == 'maxfail-race':
         # a failing short test while long parallel tests (some ignoring SIGTERM) are still running.  What is in
         # flight when the run is cut short would end with every kind of status (not only 0): whatever is reported
@@ -328,7 +336,7 @@ def gen_project(rng: random.Random, profile: str, idx: int = 0) -> dict:
     if len(seq) < 5:
         for _ in range(5 - len(seq)):
             P(0, 50)
-    seq = seq[:40] if profile != 'protocols' else seq
+    seq = seq[:40] if profile not in ('protocols', 'slices') else seq
 
     repeat_var = profile in ('mixed', 'classify')
     for t in seq:
@@ -583,6 +591,60 @@ def gen_invocations(rng: random.Random, proj: dict, count: int) -> T.List[dict]:
     return out
 
 
+SLICE_SWEEP_PROFILE = 'slices'      # not in PROFILES: projects of this profile are added by the driver on top
+
+
+def gen_slice_sweep(rng: random.Random, proj: dict, ns: T.Sequence[T.Any], sample: int = 0) -> T.List[dict]:
+    """Slice groups for a 'slices' project.  Each item of `ns` is a number of slices n, or 'all' (n = number of
+    selected tests), 'whole' (no suite selection, n = number of tests), 'over' (n a little above it: what the documents do not define), 'rand' (10 <= n <= selected).
+    Every i of 1..n is one invocation (identical other options); with `sample` > 0 and n > sample only `sample`
+    of the i are run (always 1, n, and i of every number of digits that exists): a partial group."""
+    from vf.ref.c12_oracle import selected
+    out: T.List[dict] = []
+    for gid, spec in enumerate(ns):
+        inv = {'j': rng.choice([1, 2, 3, 8]), 'repeat': 1, 'maxfail': 0, 'slice': None, 'suites': [],
+               'no_suites': [], 'tmult': None, 'group': f'sweep{gid}'}
+        if spec != 'whole' and rng.random() < 0.35:
+            for _ in range(8):
+                inc, exc = _suite_sel1(rng)
+                if len(selected(proj, {'suites': inc, 'no_suites': exc})) >= 10:
+                    inv['suites'], inv['no_suites'] = inc, exc
+                    break
+        nsel = len(selected(proj, inv))
+        if spec in ('all', 'whole'):
+            n = nsel
+        elif spec == 'over':
+            nxt = 10 ** len(str(nsel))           # the next number with one more digit (only while that stays cheap)
+            n = nsel + rng.choice([1, 1, 2, 5] + ([nxt - nsel] if nxt <= 100 else []))
+            inv['oversize'] = True
+        elif spec == 'rand':
+            n = rng.randint(min(10, nsel), nsel)
+        else:
+            n = min(int(spec), nsel)
+        if n < 1:
+            continue
+        iis = list(range(1, n + 1))
+        if sample and n > sample:
+            keep = {1, n}
+            for d in range(1, len(str(n)) + 1):
+                cand = [i for i in iis if len(str(i)) == d and i not in keep]
+                if cand:
+                    keep.add(rng.choice(cand))
+            rest = [i for i in iis if i not in keep]
+            rng.shuffle(rest)
+            keep.update(rest[:max(0, sample - len(keep))])
+            iis = sorted(keep)
+            inv['partial'] = True
+        eq = rng.random() < 0.3
+        for i in iis:
+            d = dict(inv)
+            d['slice'] = [i, n]
+            if eq:
+                d['slice_eq'] = True
+            out.append(d)
+    return out
+
+
 def argv_for(inv: dict, bdir: str) -> T.List[str]:
     a = ['test', '-C', bdir, '--no-rebuild', '--num-processes', str(inv['j'])]
     if inv['repeat'] != 1:
@@ -590,7 +652,8 @@ def argv_for(inv: dict, bdir: str) -> T.List[str]:
     if inv['maxfail']:
         a += ['--maxfail', str(inv['maxfail'])]
     if inv['slice']:
-        a += ['--slice', f"{inv['slice'][0]}/{inv['slice'][1]}"]
+        v = f"{inv['slice'][0]}/{inv['slice'][1]}"
+        a += ['--slice=' + v] if inv.get('slice_eq') else ['--slice', v]
     for s in inv['suites']:
         a += ['--suite', s]
     for s in inv['no_suites']:
